@@ -16,9 +16,12 @@ def U(b):
     return int.from_bytes(bytes(b), "big")
 
 
-def skeleton(msg):
+def skeleton(msg, per_interval=False):
     """message -> skeleton tokens, or None if the message has features the
-    skeleton does not carry (wrong-length UUIDs, missing one-ofs)"""
+    skeleton does not carry (wrong-length UUIDs, missing one-ofs).
+    per_interval: the `loadx` format - each interval carries the symbol UUIDs
+    of its own expressions, the module has no flat list (the real loader
+    checks them per decoded interval object)"""
     names = {}
 
     def nm(s):
@@ -55,6 +58,7 @@ def skeleton(msg):
                         return None
                     t += ["c" if w == "code" else "d",
                           str(U(getattr(b, w).uuid))]
+                mine = []
                 for k in sorted(x.symbolic_expressions):
                     e = x.symbolic_expressions[k]
                     w = e.WhichOneof("value")
@@ -66,7 +70,10 @@ def skeleton(msg):
                     for u in us:
                         if not ok(u):
                             return None
-                        exprsyms.append(str(U(u)))
+                        mine.append(str(U(u)))
+                exprsyms += mine
+                if per_interval:
+                    t += [str(len(mine))] + mine
         t.append(str(len(m.symbols)))
         for y in m.symbols:
             if not ok(y.uuid):
@@ -81,8 +88,9 @@ def skeleton(msg):
             else:
                 pl = "-"
             t += ["sym", str(U(y.uuid)), str(nm(y.name)), pl]
-        t.append(str(len(exprsyms)))
-        t += exprsyms
+        if not per_interval:
+            t.append(str(len(exprsyms)))
+            t += exprsyms
     t.append(str(len(msg.cfg.edges)))
     for e in msg.cfg.edges:
         if not ok(e.source_uuid) or not ok(e.target_uuid):
@@ -195,13 +203,17 @@ def run(ctx, n_files=None):
     tie = ms.CheckedTie(ctx, "loader", "loader", flush_at=150)
     # the same through the Lean function `Loader.skelOf` (message -> skeleton)
     tie_m = ms.CheckedTie(ctx, "msg", "loadm", flush_at=150)
+    # the faithful model (`LoaderX`): expression symbols checked per decoded
+    # interval object; every case, also those the coarser `Loader` cannot
+    # follow (several faults at once)
+    tie_x = ms.CheckedTie(ctx, "loaderx", "loadx", flush_at=150)
     for fno in range(n_files or ctx.scale(20, 200)):
         gen = irgen.Gen(gtirb, rng, rng.choice([0.3, 0.6]))
         ir0 = gen.build()
         msg = ms.parse_file(gtirb, ms.save(ir0))
         cases = [("unmodified", "none", msg)]
         for what, fclass, m2 in fs.structural_faults(gtirb, msg, rng, True):
-            if fclass in ("bad-reference", "duplicate-uuid"):   # noqa
+            if fclass in ("bad-reference", "duplicate-uuid"):
                 cases.append((what, fclass, m2))
         if not ctx.thorough() and len(cases) > 160:
             cases = cases[:1] + rng.sample(cases[1:], 159)
@@ -221,18 +233,24 @@ def run(ctx, n_files=None):
                 else:
                     plan = [tuple(rng.sample(nodes, 2))
                             for _ in range(rng.choice([2, 2, 3]))]
-                # INTERIM: renaming a symbol can leave an expression of a
-                # re-used (hence never decoded) interval dangling; the real
-                # loader checks expression symbols per decoded interval
-                # object, the model per module (being repaired: LoaderX)
-                if any(fields[b][0] == "symbol.uuid" for _, b in plan):
-                    continue
                 for a, b in plan:
                     setattr(fa[b][1], fa[b][2],
                             bytes(getattr(fa[a][1], fa[a][2])))
                     desc.append("%s := uuid of %s" % (fields[b][0],
                                                       fields[a][0]))
-                cases.append(("; ".join(desc), "multi-duplicate", c))
+                # sometimes a reference fault on top (a skipped interval's
+                # expressions are never looked at by the real loader)
+                if rng.random() < 0.35:
+                    refs = [i for i, f in enumerate(fields)
+                            if f[3] != "node"]
+                    if refs:
+                        i = rng.choice(refs)
+                        setattr(fa[i][1], fa[i][2], rng.choice(
+                            [rng.getrandbits(128).to_bytes(16, "big"),
+                             bytes(getattr(fa[rng.choice(nodes)][1],
+                                           fa[rng.choice(nodes)][2]))]))
+                        desc.append("%s re-pointed" % fields[i][0])
+                cases.append(("; ".join(desc), "multi-fault", c))
         for what, fclass, m2 in cases:
             sk = skeleton(m2)
             if sk is None:
@@ -255,6 +273,21 @@ def run(ctx, n_files=None):
                 # interval whose expressions were already decoded makes the
                 # implementation raise AttributeError where the model goes on
                 return a == "exc:AttributeError"
+            if out == "exc:AttributeError":
+                obs_x = "err:attribute"
+            else:
+                obs_x = obs
+
+            def cbx(i, line, a, b):
+                # which of two failing intervals the real loader meets first
+                # is its set iteration order
+                return {a, b} == {"err:attribute", "err:deser"}
+            tie_x.add_checked("file %d %s" % (fno, what),
+                              ["loadx " + " ".join(
+                                  skeleton(m2, per_interval=True)[0])],
+                              [obs_x], cbx)
+            if fclass == "multi-fault":
+                continue     # the coarser model: single faults and pairs only
             tie.add_checked("file %d %s" % (fno, what),
                             ["load " + " ".join(toks)], [obs], cb)
             tie_m.add_checked("file %d %s" % (fno, what),
@@ -262,3 +295,4 @@ def run(ctx, n_files=None):
                               [obs], cb)
     tie.flush()
     tie_m.flush()
+    tie_x.flush()
